@@ -252,8 +252,16 @@ OpSig0(d, e) ==
           THEN { <<"keycond-invalid">> } ELSE {}
   ELSE {}
 
-NonStringKey(d, e) == "t" \in DOMAIN e /\ e.t \in DOMAIN d[e.c].tables /\
-                      LET tbl == d[e.c].tables[e.t] IN tbl.hash.ty # "S" \/ (tbl.range.some /\ tbl.range.ty # "S")
+\* the two known deviations of number / binary typed keys: (1) numerals of equal value but different spelling are
+\* different keys; (2) Query order and range conditions on an N / B sort key follow the key's text
+NonStringKey(d, e) ==
+  "t" \in DOMAIN e /\ e.t \in DOMAIN d[e.c].tables /\
+  LET tbl == d[e.c].tables[e.t]
+      req == IF e.op = "PutItem" THEN {e.item} ELSE IF e.op \in {"GetItem", "UpdateItem", "DeleteItem"} THEN {e.key} ELSE {}
+      keyNums == UNION { { it[a].n : a \in { x \in KeyAttrs(tbl) : x \in DOMAIN it /\ it[x].t = "N" } } : it \in tbl.items \cup req }
+      respelled == \E n1, n2 \in keyNums : DEq(n1, n2) /\ <<n1.neg, n1.d, n1.e>> # <<n2.neg, n2.d, n2.e>>
+      ordered == e.op \in {"Query", "Walk"} /\ tbl.range.some /\ tbl.range.ty # "S"
+  IN respelled \/ ordered
 OpSig(d, e) == OpSig0(d, e) \cup (IF NonStringKey(d, e) THEN { <<"non-string-key">> } ELSE {}) \cup (IF StoredEmpty(d, e) \/ (e.op = "PutItem" /\ ItemHasEmpty(e.item)) THEN { <<"empty-container">> } ELSE {})
 
 TraceInit == l = 1 /\ db = InitDB /\ fails = <<>> /\ TLCSet(1, 1) /\ TLCSet(2, <<>>)
